@@ -119,6 +119,7 @@ func posOf(fn *ssa.Function, in ssa.Instruction) string {
 
 // checkStaleReads adds one obligation per function that writes guarded fields.
 func checkStaleReads(c *Ctx, r *Report, rule string, pkgs []string, rows []LockRow) {
+	rows = normLockRows(c, pkgs, rows)
 	for _, pkg := range pkgs {
 		for _, fn := range c.FuncsIn(pkg) {
 			if c.isFixture(fn) {
